@@ -42,7 +42,7 @@ ASSUMPTIONS = [
 ]
 BUDGET = {"quick": 45, "thorough": 420}
 NCASES = {"quick": 6000, "thorough": 120000}
-FLOORS = {"quick": {"case_held": 1500, "helper_held": 300}, "thorough": {"case_held": 15000, "helper_held": 3000}}
+FLOORS = {'quick': {'case_held': 1500, 'helper_held': 300}, 'thorough': {'case_held': 15000, 'helper_held': 3000, 'suite:apply_algebra_lowering:held': 3000, 'suite:apply_algebra_lowering:held_and_changed': 500}}
 COVER_FLOORS = {
     "quick": {"operators": ["dot", "inner", "outer", "cross", "perp", "transpose", "tr", "det", "inv", "cofac", "dev", "skew", "sym", "div", "nabla_div", "nabla_grad", "curl"]},
     "thorough": {"operators": ["dot", "inner", "outer", "cross", "perp", "transpose", "tr", "det", "inv", "cofac", "dev", "skew", "sym", "div", "nabla_div", "nabla_grad", "curl"]},
@@ -260,3 +260,15 @@ def _cofactor_np(a):
             m = np.delete(np.delete(a, i, axis=0), j, axis=1)
             c[i, j] = (-1) ** (i + j) * (np.linalg.det(m) if n > 1 else 1.0)
     return c
+
+
+# ---- additional workload (thorough tier): the repository's own test-suite with this property's passes monitored
+EXTRA_JOBS = {"thorough": ["suite"]}
+SUITE_TARGETS = ['apply_algebra_lowering']
+
+
+def extra_suite(ctx):
+    """Every call the repository's tests make to the monitored passes is judged by the same value oracle (vf/suitemon.py)."""
+    from ..suite_driver import run_suite
+
+    run_suite(ctx, SUITE_TARGETS, "C06")
